@@ -321,6 +321,20 @@ class SymInt(SymBase):
     def __neg__(self):
         return wrap_int(tm.Neg(self.t))
 
+    def __or__(self, o):
+        """Bitwise or with a non-negative constant (per set bit: add it unless already set)."""
+        if not isinstance(o, int) or isinstance(o, bool) or o < 0:
+            return NotImplemented
+        t = self.t
+        k = 1
+        while k <= o:
+            if o & k:
+                t = tm.Ite(bit_t(t, k), t, tm.Add(t, tm.mk_int(k)))
+            k <<= 1
+        return wrap_int(t)
+
+    __ror__ = __or__
+
     def _cmp(self, o, f):
         if not _intlike(o):
             return NotImplemented
@@ -355,6 +369,17 @@ class SymInt(SymBase):
         if c.fork(tm.Or(tm.Lt(self.t, tm.mk_int(0)), tm.Ge(self.t, tm.mk_int(256**length)))):
             raise OverflowError("int too big to convert")
         return wrap_bytes(be_encode(self.t, length))
+
+
+def bit_t(t: T, k: int) -> T:
+    """Bit with value k (a power of two) of a non-negative integer term."""
+    if t.is_lit:
+        return tm.mk_bool(bool(tm.litval(t) & k))
+    return tm.Eq(app_mod(tm.app(INT, "div", t, tm.mk_int(k)), 2), tm.mk_int(1))
+
+
+def app_mod(t: T, m: int) -> T:
+    return tm.app(INT, "mod", t, tm.mk_int(m))
 
 
 def be_encode(t: T, length: int) -> T:
